@@ -101,6 +101,12 @@ def replay_state(ctx, rnd, s, win, wlo, whi, idx, pid='C01'):
     want_int = (idx % 7 == 3)
     fr = pick_frame(rnd, U, want_int)
     try:
+        if idx % 4 == 1 and s.get('inc') == 'absent' and s['k'] != 'compound':
+            # a region of the same class built without meta / visual, whose meta the caller then edits (an include flag, a label): regions
+            # built afterwards without meta are regions of their own, they share no default object with it
+            sib = geom.build(s, fr)
+            sib.meta['include'] = False
+            sib.visual['color'] = 'red'
         if idx % 5 == 2:
             # the region is first built with other parameters, queried once, then assigned the wanted ones
             from regions import PixCoord as _PC
@@ -165,6 +171,20 @@ def replay_state(ctx, rnd, s, win, wlo, whi, idx, pid='C01'):
                 ctx.violation(f"{pid}|member-scalar|{kind_sig(s)}", 'scalar query answered differently from the exact model',
                               {'shape': s, 'frame': vars(fr), 'point_units': [int(xs_u[j]), int(ys_u[j])], 'model': int(model[j])})
                 break
+        # an array that holds exactly one position is still an array: the answer has its shape ((1,), (1, 1), (1, 1, 1)), it is not a scalar
+        for j in js[:1]:
+            shp1 = [(1,), (1, 1), (1, 1, 1)][(idx // 3) % 3]
+            try:
+                o1 = region.contains(PixCoord(np.asarray(xs[j:j + 1]).reshape(shp1), np.asarray(ys[j:j + 1]).reshape(shp1)))
+            except Exception as ex:
+                ctx.violation(f"{pid}|contains|{s['k']}|{type(ex).__name__}", f'contains of a one-element array raised {ex!r}', {'shape': s})
+                break
+            if not (isinstance(o1, np.ndarray) and o1.shape == shp1 and o1.dtype == np.bool_):
+                ctx.violation(f"{pid}|form|{s['k']}|one-element", f'contains(array of shape {shp1}) returned {type(o1).__name__} of shape {getattr(o1, "shape", None)}',
+                              {'shape': s, 'query_shape': list(shp1)})
+            elif bool(o1.reshape(-1)[0]) != bool(model[j]):
+                ctx.violation(f"{pid}|member|{kind_sig(s)}", 'one-element array query answered differently from the exact model',
+                              {'shape': s, 'frame': vars(fr), 'point_units': [int(xs_u[j]), int(ys_u[j])], 'model': int(model[j])})
         try:
             o0 = region.contains(PixCoord(np.zeros((0,)), np.zeros((0,))))
             if not (isinstance(o0, np.ndarray) and o0.shape == (0,)):
